@@ -282,6 +282,10 @@ CORPUS["C08"] = [
 ]
 
 CORPUS["C09"] = [
+    B("map indices kept in the table by the size of their own axis", (CLD, "        i = np.searchsorted(latitudes, np.degrees(lat))\n        j = np.searchsorted(longitudes, np.degrees(long))", "        i = np.searchsorted(latitudes, np.degrees(lat))\n        j = np.searchsorted(longitudes, np.degrees(long))\n        i = min(i, latitudes.size - 1)\n        j = min(j, longitudes.size - 1)")),
+    B("map indices clipped to the shape of the map", (CLD, "        i = np.searchsorted(latitudes, np.degrees(lat))\n        j = np.searchsorted(longitudes, np.degrees(long))", "        i = np.searchsorted(latitudes, np.degrees(lat))\n        j = np.searchsorted(longitudes, np.degrees(long))\n        i = np.clip(i, 0, map.shape[0] - 1)\n        j = np.clip(j, 0, map.shape[1] - 1)")),
+    M("longitude index kept in the table by the number of latitudes", (CLD, "        i = np.searchsorted(latitudes, np.degrees(lat))\n        j = np.searchsorted(longitudes, np.degrees(long))", "        i = np.searchsorted(latitudes, np.degrees(lat))\n        j = np.searchsorted(longitudes, np.degrees(long))\n        i = min(i, latitudes.size - 1)\n        j = min(j, latitudes.size - 1)")),
+    M("indices clipped to the wrong dimension of the map", (CLD, "        i = np.searchsorted(latitudes, np.degrees(lat))\n        j = np.searchsorted(longitudes, np.degrees(long))", "        i = np.searchsorted(latitudes, np.degrees(lat))\n        j = np.searchsorted(longitudes, np.degrees(long))\n        i = np.clip(i, 0, map.shape[1] - 1)\n        j = np.clip(j, 0, map.shape[0] - 1)")),
     M("longitude index from latitude", (CLD, "j = np.searchsorted(longitudes, np.degrees(long))", "j = np.searchsorted(longitudes, np.degrees(lat))")),
     M("radians against the degree grid", (CLD, "i = np.searchsorted(latitudes, np.degrees(lat))", "i = np.searchsorted(latitudes, lat)")),
     M("cloud mask <=", (CPH, "cloud_mask = zs < cloud_top_height", "cloud_mask = zs <= cloud_top_height")),
@@ -434,6 +438,17 @@ CORPUS["C17"] = [
 ]
 
 CORPUS["C18"] = [
+    M("sub-grid: names kept under a weaker test than the axes",
+      (GRID, "                self.axis_names[i]\n                for i, s in enumerate(item)\n                if np.count_nonzero(s) > 1 or isinstance(s, slice)",
+       "                self.axis_names[i]\n                for i, s in enumerate(item)\n                if np.count_nonzero(s) > 0 or isinstance(s, slice)")),
+    M("sub-grid: masks turned into index arrays before the survival test",
+      (GRID, "        kwargs = {}\n        kwargs[\"data\"] = self.data[item].squeeze()\n",
+       "        item = tuple(np.flatnonzero(s) if getattr(s, \"dtype\", None) == bool else s for s in item)\n        kwargs = {}\n        kwargs[\"data\"] = self.data[item].squeeze()\n")),
+    M("sub-grid: axes cut with the first selector only",
+      (GRID, "                self.axes[i][s]\n                for i, s in enumerate(item)", "                self.axes[i][item[0]]\n                for i, s in enumerate(item)")),
+    B("sub-grid: survival test with commuted comparison in one of the two lists",
+      (GRID, "                self.axis_names[i]\n                for i, s in enumerate(item)\n                if np.count_nonzero(s) > 1 or isinstance(s, slice)",
+       "                self.axis_names[i]\n                for i, s in enumerate(item)\n                if isinstance(s, slice) or 1 < np.count_nonzero(s)")),
     M("reader opens a different data set name", (GRID, '        griddata = f[path]["__nss_grid_data__"][()]', '        griddata = f[path]["__nss_grid_values__"][()]')),
     M("FITS axis HDU off by one", (GRID, "        axes = [f[i + 1].data.field(0) for i in range(naxis)]", "        axes = [f[i].data.field(0) for i in range(naxis)]")),
     M("writer casts to float32", (GRID, '        grp.create_dataset("__nss_grid_data__", shape=grid.shape, data=grid.data)', '        grp.create_dataset("__nss_grid_data__", shape=grid.shape, data=grid.data.astype("f4"))')),
